@@ -85,7 +85,7 @@ class Env(object):
         raw.execute('begin')
         for t in self.tables: raw.execute('delete from "%s"' % t)
         raw.execute('delete from sqlite_sequence')
-        raw.execute('''insert into "G" (id, classtype, a, b, lz, data, extra) values (1, 'G', 10, 11, 12, '{"k": 1}', NULL),
+        raw.execute('''insert into "G" (id, classtype, a, b, lz, data, extra) values (1, 'G', 10, 11, 12, '{"k": 1, "l": [1]}', NULL),
                        (2, 'G', 20, NULL, NULL, NULL, NULL), (3, 'S', 30, 31, NULL, NULL, 7)''')
         raw.execute('insert into "O" (id, g) values (1, 1)')
         raw.execute('insert into "I" (id, g, w) values (1, 1, 5), (2, 1, NULL), (3, 3, 6)')
@@ -170,6 +170,8 @@ def s_cancelled_conn(E):
     E.G[1]; n = E.G(a=5); E.I(g=n); n.delete()
 def s_json(E): E.G[1].data; E.G[2].data
 def s_json_modified(E): E.G[1].data['k'] = 2
+def s_json_deleted(E):
+    g = E.G[1]; g.data; g.tags.load(); g.delete()
 def s_one(E):
     g = E.G[1]; g.one; E.O[1].g; E.G[2].one
 def s_subclass(E):
@@ -182,7 +184,7 @@ SCRIPTS = [('loaded_min', s_loaded_min), ('seed', s_seed), ('partial', s_partial
            ('is_empty', s_is_empty), ('absent', s_absent), ('m2m_reverse', s_m2m_reverse), ('lazy', s_lazy), ('read', s_read),
            ('modified', s_modified), ('rel_modified', s_rel_modified), ('created', s_created), ('created_graph', s_created_graph),
            ('delete', s_delete), ('delete_cascade', s_delete_cascade), ('cancelled', s_cancelled), ('cancelled_conn', s_cancelled_conn),
-           ('json', s_json), ('json_modified', s_json_modified), ('one', s_one), ('subclass', s_subclass), ('seed_raw', s_seed_raw),
+           ('json', s_json), ('json_modified', s_json_modified), ('json_deleted', s_json_deleted), ('one', s_one), ('subclass', s_subclass), ('seed_raw', s_seed_raw),
            ('failed_flush', s_failed_flush)]
 # how the session ends:  commit (normal exit) / rollback() / exception in the body /
 #   commit_fault: the COMMIT at the exit raises (fault injected into the recording connection) -> SessionCache.commit's except path
@@ -200,6 +202,7 @@ class Run(object):
     def __init__(self, E):
         self.E = E; self.objs = []; self.index = {}; self.cache = None
         self.live = None; self.strict = None; self.had_connection = None; self.close_tie = True
+        self.wrappers = {}       # (object, attr) -> the Tracked document obtained DURING the session (it outlives the session)
 
     def idx(self, o):
         i = self.index.get(o)
@@ -241,7 +244,15 @@ class Run(object):
         return {'alive': bool(c.is_alive), 'savedPending': bool(c.saved_objects), 'objs': [self.snap_obj(o) for o in self.objs]}
 
     def extra(self):
-        return [[repr(o._pkval_), o._newid_] for o in self.objs]
+        docs = sorted([self.index.get(o, -1), self.E.aid[a], json.dumps(w.get_untracked(), sort_keys=True)] for (o, a), w in self.wrappers.items())
+        return [[repr(o._pkval_), o._newid_] for o in self.objs] + [docs]
+
+    def capture_wrappers(self):
+        from pony.orm.ormtypes import TrackedValue
+        for o in list(self.cache.objects):
+            if o._vals_ is None: continue
+            for a, v in o._vals_.items():
+                if isinstance(v, TrackedValue) and isinstance(v, dict): self.wrappers[(o, a)] = v
 
 
 def canon_world(w):
@@ -276,6 +287,7 @@ def run_session(E, script, ending, strict):
             if name != 'failed_flush':
                 if ending == 'commit': commit()
                 elif ending in ('commit_fault', 'commit_locked'): flush()     # statuses are final; only the COMMIT itself is left for the exit
+            R.capture_wrappers()
             R.collect()
             R.live = R.snapshot()
             R.had_connection = R.cache.connection is not None
@@ -317,6 +329,14 @@ def ops_for(E, R, o):
             out.append(({'k': 'attrLoad', 'attr': AJ(a)}, (lambda a=a: a.load(o) and None), 'load'))
             if a.py_type is Json:
                 out.append(({'k': 'attrChanged', 'attr': AJ(a)}, (lambda a=a: o._attr_changed_(a)), 'mutate'))
+                doc = R.wrappers.get((o, a))
+                if doc is not None:
+                    # in-place mutators of the Tracked document obtained during the session (tracked_method): refused AND nothing changed
+                    out.append(({'k': 'attrChanged', 'attr': AJ(a), 'via': 'dict.__setitem__'}, (lambda doc=doc: doc.__setitem__('k', 5)), 'mutate'))
+                    out.append(({'k': 'attrChanged', 'attr': AJ(a), 'via': 'dict.pop'}, (lambda doc=doc: doc.pop('k', None) and None), 'mutate'))
+                    if isinstance(doc.get('l'), list):
+                        out.append(({'k': 'attrChanged', 'attr': AJ(a), 'via': 'list.append'}, (lambda doc=doc: doc['l'].append(2)), 'mutate'))
+                        out.append(({'k': 'attrChanged', 'attr': AJ(a), 'via': 'list.clear'}, (lambda doc=doc: doc['l'].clear()), 'mutate'))
             if a.pk_offset is None:
                 newv = 99
                 if a.reverse:
@@ -628,7 +648,7 @@ def explore(ctx, E, scripts, stricts, ambients, target_limit=None, ambient_scrip
                                 d = {p[0]: p[1] for p in live_vals['objs'][o_i]['vals']}
                                 if op['attr']['id'] in d and not isinstance(d[op['attr']['id']], dict): live_val = {'value': d[op['attr']['id']]}
                             oracle(ctx, R, E, case, op, kind, o_i, pre, post, xpre, xpost, out, events, dump_pre, dump_post, ambient, live_val)
-                            if strip_rbits(post) != strip_rbits(pre): dirty = True
+                            if strip_rbits(post) != strip_rbits(pre) or xpre != xpost: dirty = True
                             req = {'op': 'step', 'world': pre, 'obj': o_i, 'opr': {k: v for k, v in op.items() if k not in ('via', 'wc')}, 'ambient': ambient}
                             pending.append((req, out, post, full_case, nsel))
     return pending
@@ -710,7 +730,11 @@ def witness_json(ctx, E):
     try: g.data['k'] = 5; r = 'no error'
     except core.DatabaseSessionIsOver: r = 'DatabaseSessionIsOver'
     except Exception as e: r = type(e).__name__
+    after = json.dumps(g.data.get_untracked(), sort_keys=True)
     ctx.case(['witness', 'json-in-place'], kind='witness')
+    if after != before:
+        ctx.violation('a refused modification changed the object', {'script': 'with db_session: g = G[1]; g.data', 'op': "g.data['k'] = 5"},
+                      observed={'raised': r, 'document': after}, expected=before, key='mutate-changed:attrChanged')
     if r != 'DatabaseSessionIsOver':
         ctx.violation('an in-place change of a Json value of an object of a finished session was not refused', {'script': 'with db_session: g = G[1]; g.data', 'op': "g.data['k'] = 5"},
                       observed=r, expected='DatabaseSessionIsOver', key='mutate:json-in-place:%s' % r)
